@@ -127,6 +127,26 @@ example : ¬ ProperPrefix [97, 98] [98] ∧ ¬ ProperPrefix [98] [97, 98] := by
 theorem reverse_str_counter :
     natLexLe [97] [97, 98] = true ∧ natLexLe (reverseStr [97, 98]) (reverseStr [97]) = false := by decide
 
+/-- … hence `sorted(reverse=<one str column>)` IS a descending sort of the rows whenever no key is a
+proper prefix of another (code points < 256): this is the part of the unrestricted claim that holds. -/
+theorem sorted_reverse_str_descending_partial {α : Type} (dflt : α) (strOf : List α → List Nat)
+    (cols : List (List α))
+    (hc : ∀ r ∈ rowsOf dflt cols, ∀ c ∈ strOf r, c < 256)
+    (hp : ∀ r ∈ rowsOf dflt cols, ∀ s ∈ rowsOf dflt cols, ¬ ProperPrefix (strOf r) (strOf s)) :
+    (rowsOf dflt (sortedCols dflt lexLe (fun r => [SKey.str (reverseStr (strOf r))]) cols)).Pairwise
+      (fun r s => natLexLe (strOf s) (strOf r) = true) :=
+  sorted_reverse_str_descending' dflt strOf cols hc hp
+
+example : ∀ r ∈ rowsOf 0 [[97, 98]], ∀ s ∈ rowsOf 0 [[97, 98]], ¬ ProperPrefix (id r) (id s) := by
+  have e1 : rowsOf 0 [[97, 98]] = [[97], [98]] := by decide
+  rw [e1]
+  intro r hr s hs ⟨u, hu, h⟩
+  simp only [List.mem_cons, List.mem_nil_iff, or_false] at hr hs
+  rcases hr with rfl | rfl <;> rcases hs with rfl | rfl <;> simp at h <;> exact hu h
+
+/- FULL STATEMENT (not proved): the same conclusion without `hp` (descending order for ALL string
+   columns).  False for the code as written, see `reverse_str_counter`. -/
+
 /-! ## row-wise operations -/
 
 /-- `filtered`: rows kept by the callback on the selected fields, in order. -/
